@@ -192,6 +192,19 @@ func (tt *termTable) Eq(a, b *Term) *Term {
 	}
 	// concat == const / concat == concat with identical shapes: split (keeps
 	// byte-wise array equalities small and lets injectivity reasoning work).
+	if a.w > 1 {
+		if xa, ok := tt.zcore(a); ok {
+			if xb, ok := tt.zcore(b); ok {
+				m := xa.w
+				if xb.w > m {
+					m = xb.w
+				}
+				if m < a.w {
+					return tt.Eq(tt.Zext(xa, m), tt.Zext(xb, m))
+				}
+			}
+		}
+	}
 	if a.id > b.id {
 		a, b = b, a
 	}
@@ -305,6 +318,12 @@ func (tt *termTable) Zext(a *Term, w int) *Term {
 	}
 	if a.IsConst() {
 		return tt.Const(w, a.c)
+	}
+	if a.op == "zext" {
+		return tt.Zext(a.args[0], w)
+	}
+	if a.op == "concat" && isZeroConst(a.args[0]) {
+		return tt.Zext(tt.Concat(a.args[1:]...), w)
 	}
 	return tt.intern(&Term{op: "zext", w: w, args: []*Term{a}})
 }
@@ -467,7 +486,149 @@ nofold:
 			return r
 		}
 	}
+	if op == "bvmul" {
+		if xa, ok := tt.zcore(a); ok {
+			if xb, ok := tt.zcore(b); ok && xa.w+xb.w < w {
+				m := xa.w + xb.w
+				return tt.Zext(tt.BV("bvmul", tt.Zext(xa, m), tt.Zext(xb, m)), w)
+			}
+		}
+	}
+	switch op {
+	case "bvadd":
+		return tt.sum(w, a, b)
+	case "bvmul", "bvand", "bvor", "bvxor":
+		if a.id > b.id {
+			a, b = b, a
+		}
+	}
 	return tt.intern(&Term{op: op, w: w, args: []*Term{a, b}})
+}
+
+// zcore returns (x, true) when t = zero_extend(x) for some strictly narrower x
+// (including constants and concatenations with a zero prefix).
+func (tt *termTable) zcore(t *Term) (*Term, bool) {
+	switch t.op {
+	case "zext":
+		return t.args[0], true
+	case "const":
+		if t.w > 1 {
+			n := t.c.BitLen()
+			if n == 0 {
+				n = 1
+			}
+			if n < t.w {
+				return tt.Const(n, t.c), true
+			}
+		}
+	case "concat":
+		if isZeroConst(t.args[0]) {
+			return tt.Concat(t.args[1:]...), true
+		}
+	}
+	return nil, false
+}
+
+func log2ceil(n int) int {
+	k := 0
+	for (1 << k) < n {
+		k++
+	}
+	return k
+}
+
+// sum builds a canonical sum: nested additions are flattened, constants are
+// folded, and the operands are ordered by term id, so that sums that differ
+// only by associativity/commutativity become the same term.
+func (tt *termTable) sum(w int, xs ...*Term) *Term {
+	var flat []*Term
+	c := new(big.Int)
+	var walk func(t *Term)
+	walk = func(t *Term) {
+		switch {
+		case t.IsConst():
+			c.Add(c, t.c)
+		case t.op == "bvadd":
+			for _, a := range t.args {
+				walk(a)
+			}
+		case t.op == "zext" && t.args[0].op == "bvadd" && t.args[0].name == "nw":
+			// a non-wrapping narrow sum: its operands may be re-associated
+			for _, a := range t.args[0].args {
+				walk(tt.Zext(a, w))
+			}
+		default:
+			flat = append(flat, t)
+		}
+	}
+	for _, x := range xs {
+		walk(x)
+	}
+	sort.Slice(flat, func(i, j int) bool { return flat[i].id < flat[j].id })
+	c.And(c, mask(w))
+	if c.Sign() != 0 {
+		flat = append(flat, tt.Const(w, c))
+	}
+	switch len(flat) {
+	case 0:
+		return tt.ConstU(w, 0)
+	case 1:
+		return flat[0]
+	}
+	// narrowing: a sum of zero-extended operands that cannot carry out of m
+	// bits is computed at width m (much cheaper to bit-blast)
+	maxw := 0
+	cores := make([]*Term, len(flat))
+	ok := true
+	for k, t := range flat {
+		x, is := tt.zcore(t)
+		if !is {
+			ok = false
+			break
+		}
+		cores[k] = x
+		if x.w > maxw {
+			maxw = x.w
+		}
+	}
+	if ok {
+		m := maxw + log2ceil(len(flat))
+		if m < w {
+			for k := range cores {
+				cores[k] = tt.Zext(cores[k], m)
+			}
+			sort.Slice(cores, func(i, j int) bool { return cores[i].id < cores[j].id })
+			return tt.Zext(tt.sumRaw(m, cores), w)
+		}
+	}
+	return tt.intern(&Term{op: "bvadd", w: w, args: flat})
+}
+
+func (tt *termTable) sumRaw(w int, xs []*Term) *Term {
+	// xs are already narrow; fold constants again
+	var flat []*Term
+	c := new(big.Int)
+	for _, x := range xs {
+		if x.IsConst() {
+			c.Add(c, x.c)
+		} else if x.op == "bvadd" {
+			flat = append(flat, x.args...)
+		} else {
+			flat = append(flat, x)
+		}
+	}
+	c.And(c, mask(w))
+	if c.Sign() != 0 {
+		flat = append(flat, tt.Const(w, c))
+	}
+	sort.Slice(flat, func(i, j int) bool { return flat[i].id < flat[j].id })
+	if len(flat) == 1 {
+		return flat[0]
+	}
+	if len(flat) == 0 {
+		return tt.ConstU(w, 0)
+	}
+	return tt.intern(&Term{op: "bvadd", name: "nw", w: w, args: flat})
 }
 
 // pieces returns t as a list of (term) pieces from MSB to LSB.
@@ -607,6 +768,25 @@ func (tt *termTable) Cmp(op string, a, b *Term) *Term {
 	}
 	if a == b {
 		return tt.Bool(op == "bvule" || op == "bvsle")
+	}
+	if xa, ok := tt.zcore(a); ok {
+		if xb, ok := tt.zcore(b); ok {
+			m := xa.w
+			if xb.w > m {
+				m = xb.w
+			}
+			if m < a.w {
+				// both operands are non-negative in m+1 bits: signed and
+				// unsigned comparison coincide
+				uop := op
+				if op == "bvslt" {
+					uop = "bvult"
+				} else if op == "bvsle" {
+					uop = "bvule"
+				}
+				return tt.Cmp(uop, tt.Zext(xa, m), tt.Zext(xb, m))
+			}
+		}
 	}
 	return tt.intern(&Term{op: op, args: []*Term{a, b}})
 }
